@@ -1228,6 +1228,14 @@ func corpusUnpack() []*UnpackCase {
 		}
 		sweep = append(sweep, mk(nil, dir(n)))
 	}
+	// the same path twice, the earlier file read-only and longer, without privileges: the later entry replaces it whole
+	for _, m := range []int64{0o444, 0o400, 0o000} {
+		for _, n2 := range []string{"ro", "./ro", "/ro"} {
+			c := good(EntrySpec{Name: "ro", Type: "0", Mode: m, Mtime: 1000000001, Body: "the earlier, longer content"}, reg(n2, "short"))
+			c.Uid = 65534
+			sweep = append(sweep, c)
+		}
+	}
 	return append(sweep, []*UnpackCase{
 		mk(nil, reg("../dst-evil/x", "pwned")),                                 // D1: sibling prefix
 		mk(nil, lnk("l", "../dst-evil"), reg("l/x", "through")),                // D1 on link target
